@@ -24,25 +24,25 @@ pub struct Prop {
 fn props() -> Vec<Prop> {
     vec![
         Prop { id: "C01", run: c01::run, replay: c01::replay, meta: c01::meta, workers: (4, 16), also_release: false, also_bg: false, scale: (30, 100), fuzz: None },
-        Prop { id: "C02", run: c02::run, replay: c02::replay, meta: c02::meta, workers: (8, 16), also_release: false, also_bg: false, scale: (10, 10), fuzz: None },
-        Prop { id: "C03", run: c03::run, replay: c03::replay, meta: c03::meta, workers: (4, 16), also_release: false, also_bg: false, scale: (10, 20), fuzz: None },
-        Prop { id: "C04", run: c04::run, replay: c04::replay, meta: c04::meta, workers: (8, 16), also_release: false, also_bg: false, scale: (5, 10), fuzz: None },
+        Prop { id: "C02", run: c02::run, replay: c02::replay, meta: c02::meta, workers: (8, 16), also_release: false, also_bg: false, scale: (40, 100), fuzz: None },
+        Prop { id: "C03", run: c03::run, replay: c03::replay, meta: c03::meta, workers: (4, 16), also_release: false, also_bg: false, scale: (30, 100), fuzz: None },
+        Prop { id: "C04", run: c04::run, replay: c04::replay, meta: c04::meta, workers: (8, 16), also_release: false, also_bg: false, scale: (15, 50), fuzz: None },
         Prop { id: "C05", run: c05::run, replay: c05::replay, meta: c05::meta, workers: (8, 16), also_release: false, also_bg: true, scale: (3, 5), fuzz: None },
-        Prop { id: "C06", run: c06::run, replay: c06::replay, meta: c06::meta, workers: (4, 16), also_release: false, also_bg: false, scale: (10, 10), fuzz: None },
+        Prop { id: "C06", run: c06::run, replay: c06::replay, meta: c06::meta, workers: (4, 16), also_release: false, also_bg: false, scale: (30, 60), fuzz: None },
         Prop { id: "C07", run: c07::run, replay: c07::replay, meta: c07::meta, workers: (4, 16), also_release: false, also_bg: true, scale: (3, 5), fuzz: None },
         Prop { id: "C08", run: c08::run, replay: c08::replay, meta: c08::meta, workers: (8, 16), also_release: false, also_bg: false, scale: (2, 1), fuzz: None },
         Prop { id: "C09", run: c09::run, replay: c09::replay, meta: c09::meta, workers: (4, 8), also_release: true, also_bg: false, scale: (3, 3), fuzz: Some(("pattern_ast", 3000000)) },
         Prop { id: "C11", run: c11::run, replay: c11::replay, meta: c11::meta, workers: (4, 16), also_release: true, also_bg: false, scale: (5, 5), fuzz: Some(("pattern_any", 6000000)) },
-        Prop { id: "C12", run: c12::run, replay: c12::replay, meta: c12::meta, workers: (8, 16), also_release: false, also_bg: false, scale: (2, 1), fuzz: Some(("json_record", 1500000)) },
-        Prop { id: "C13", run: c13::run, replay: c13::replay, meta: c13::meta, workers: (4, 16), also_release: false, also_bg: false, scale: (10, 20), fuzz: Some(("builder_names", 2000000)) },
-        Prop { id: "C14", run: c14::run, replay: c14::replay, meta: c14::meta, workers: (8, 16), also_release: false, also_bg: false, scale: (5, 2), fuzz: Some(("config_doc", 3000000)) },
-        Prop { id: "C15", run: c15::run, replay: c15::replay, meta: c15::meta, workers: (8, 16), also_release: false, also_bg: false, scale: (5, 3), fuzz: None },
+        Prop { id: "C12", run: c12::run, replay: c12::replay, meta: c12::meta, workers: (8, 16), also_release: false, also_bg: false, scale: (6, 3), fuzz: Some(("json_record", 1500000)) },
+        Prop { id: "C13", run: c13::run, replay: c13::replay, meta: c13::meta, workers: (4, 16), also_release: false, also_bg: false, scale: (40, 100), fuzz: Some(("builder_names", 2000000)) },
+        Prop { id: "C14", run: c14::run, replay: c14::replay, meta: c14::meta, workers: (8, 16), also_release: false, also_bg: false, scale: (20, 4), fuzz: Some(("config_doc", 3000000)) },
+        Prop { id: "C15", run: c15::run, replay: c15::replay, meta: c15::meta, workers: (8, 16), also_release: false, also_bg: false, scale: (15, 9), fuzz: None },
         Prop { id: "C16", run: c16::run, replay: c16::replay, meta: c16::meta, workers: (10, 18), also_release: false, also_bg: false, scale: (3, 1), fuzz: None },
-        Prop { id: "C17", run: c17::run, replay: c17::replay, meta: c17::meta, workers: (4, 16), also_release: false, also_bg: false, scale: (5, 10), fuzz: None },
+        Prop { id: "C17", run: c17::run, replay: c17::replay, meta: c17::meta, workers: (4, 16), also_release: false, also_bg: false, scale: (25, 30), fuzz: None },
         Prop { id: "C18", run: c18::run, replay: c18::replay, meta: c18::meta, workers: (8, 16), also_release: false, also_bg: false, scale: (1, 1), fuzz: None },
-        Prop { id: "C19", run: c19::run, replay: c19::replay, meta: c19::meta, workers: (4, 16), also_release: false, also_bg: false, scale: (5, 5), fuzz: Some(("env_expand", 6000000)) },
-        Prop { id: "C20", run: c20::run, replay: c20::replay, meta: c20::meta, workers: (4, 16), also_release: false, also_bg: false, scale: (5, 10), fuzz: Some(("literals", 4000000)) },
-        Prop { id: "C10", run: c10::run, replay: c10::replay, meta: c10::meta, workers: (4, 16), also_release: false, also_bg: false, scale: (5, 5), fuzz: Some(("pattern_ast", 3000000)) },
+        Prop { id: "C19", run: c19::run, replay: c19::replay, meta: c19::meta, workers: (4, 16), also_release: false, also_bg: false, scale: (6, 8), fuzz: Some(("env_expand", 6000000)) },
+        Prop { id: "C20", run: c20::run, replay: c20::replay, meta: c20::meta, workers: (4, 16), also_release: false, also_bg: false, scale: (15, 20), fuzz: Some(("literals", 4000000)) },
+        Prop { id: "C10", run: c10::run, replay: c10::replay, meta: c10::meta, workers: (4, 16), also_release: false, also_bg: false, scale: (10, 10), fuzz: Some(("pattern_ast", 3000000)) },
     ]
 }
 
